@@ -30,10 +30,22 @@ void harness(void)
   unsigned char kg = (g < keylen) ? key[g] : 0;
   tinyjambu_hmac_state_t st;
   key0 = key; keylen0 = keylen; long_key = keylen > 64; step = 0; have_blk = 0;
+#if defined(TJV_REINIT)
+  tinyjambu_hmac_reinit(&st, key, keylen);      /* on a state with arbitrary contents: must behave exactly like init */
+#elif defined(TJV_UPDATE)
+  /* hmac_update is a call-through to hash_update on the embedded hash state with the caller's pointer and length */
+  step = 10; long_key = 1; key0 = key; keylen0 = keylen;
+  tinyjambu_hmac_update(&st, key, keylen);
+  TJV_REACH_HERE("after hmac_update");
+  __CPROVER_assert(step == 11, "C12: hmac_update absorbs exactly the caller's bytes into the inner hash, once");
+#else
   tinyjambu_hmac_init(&st, key, keylen);
+#endif
+#ifndef TJV_UPDATE
   TJV_REACH_HERE("after hmac_init");
   __CPROVER_assert(step == 4 && have_blk, "hmac set_key: protocol completed (key block absorbed into a fresh hash state)");
   unsigned char k0 = long_key ? (g < 32 ? dig[g] : 0) : kg;
   __CPROVER_assert(blk[g] == (unsigned char)(k0 ^ 0x36), "C12: key block byte == K0[g] xor ipad, K0 = key (or Hash(key) if longer than 64) zero-padded to 64 bytes");
+#endif
   __CPROVER_assert(keylen == 0 || g >= keylen || key[g] == kg, "C06: key not modified");
 }
